@@ -74,6 +74,11 @@ theorem foldl_snSend_now (its : List BufItem) : ∀ g : Gw,
   simp only
   rw [foldl_snSend_now]
 
+@[simp] theorem armSleepPinger_outs (g : Gw) (d : UInt16) : (g.armSleepPinger d).outs = g.outs := by
+  unfold armSleepPinger; split <;> rfl
+@[simp] theorem armSleepPinger_buffer (g : Gw) (d : UInt16) : (g.armSleepPinger d).buffer = g.buffer := by
+  unfold armSleepPinger; split <;> rfl
+
 /-- **C11.** Waking up: the buffered packets in order, then PINGRESP; asleep again afterwards. -/
 theorem c11_wake (g : Gw) (h : g.st = .asleep) :
     g.handlePingreq.outs =
@@ -84,10 +89,12 @@ theorem c11_wake (g : Gw) (h : g.st = .asleep) :
   have hf := c11_flush (g.setSt .awake) (by simp)
   have hst : (g.setSt .awake).flushBuffer.st ≠ .asleep := by simp
   refine ⟨?_, ?_, by simp⟩
-  · unfold snSend
+  · rw [armSleepPinger_outs]
+    unfold snSend
     simp only [hst, if_false, emit, hf.1, flushBuffer_now]
     simp [setSt]
-  · unfold snSend
+  · rw [armSleepPinger_buffer]
+    unfold snSend
     simp only [hst, if_false, emit, hf.2]
     simp [setSt]
 
@@ -110,7 +117,9 @@ theorem c11_asleep_mq (g : Gw) (p : MqPkt) (h : g.st = .asleep) (hp : ∀ rc, p 
       · exact h
     · exact h
   · simp [h]
-  · split <;> simp [h]
+  · split
+    · exact h
+    · split <;> simp [h]
   · simp [h]
   · split
     · split
@@ -124,7 +133,7 @@ theorem c11_asleep_mq (g : Gw) (p : MqPkt) (h : g.st = .asleep) (hp : ∀ rc, p 
 theorem c11_repeated_sleep_request (g : Gw) (d : UInt16) (h : g.st = .asleep) :
     (g.handleSleep d).buffer = g.buffer ∧ (g.handleSleep d).st = .asleep ∧
     (g.handleSleep d).outs = (g.now, Out.sn (encode (.disconnect 0))) :: g.outs := by
-  unfold handleSleep clearBufferUnlessAsleep maybeSleepPinger
+  unfold handleSleep clearBufferUnlessAsleep armSleepPinger
   split <;> simp [h, snSendNow, emit, setSt, startSleepPinger, cancelSleepPinger]
 
 /-- non-vacuity: two queued packets come out oldest first, then PINGRESP -/
@@ -234,7 +243,9 @@ theorem c11_silent_on_broker_packets (g : Gw) (p : MqPkt) (h : g.st = .asleep) (
   · exact snOuts_snSend _ _ _ h
   · split
     · rfl
-    · exact snOuts_snSend _ _ _ h
+    · split
+      · rfl
+      · exact snOuts_snSend _ _ _ h
   · exact snOuts_handleBrokerPublish _ _ _ _ _ _ _ h
   · split
     · split
@@ -293,7 +304,7 @@ theorem fireDue_quiet (g : Gw) (d : Due) (h : g.st = .asleep) : StaysQuiet g (g.
   · unfold fireTx; split
     · rw [txExpire_st]; exact h
     · exact h
-  · unfold firePing; simpa using h
+  · unfold firePing pingBroker; simpa using h
   · exact h
 
 theorem finishSession_quiet (g : Gw) (h : g.st = .asleep) : StaysQuiet g g.finishSession := by
@@ -325,6 +336,16 @@ theorem advance_quiet : ∀ (fuel : Nat) (g : Gw) (t : Nat), g.st = .asleep → 
         exact (q1.trans q2).trans (ih _ t q2.1)
       · exact setNow_quiet g _ h
 
+theorem keepBrokerAlive_quiet (g : Gw) (h : g.st = .asleep) : StaysQuiet g g.keepBrokerAlive := by
+  unfold keepBrokerAlive pingBroker
+  split
+  · exact StaysQuiet.refl h
+  · split
+    · split
+      · exact StaysQuiet.refl h
+      · exact ⟨by simpa using h, by rw [snOuts_mqttSend]; exact snOuts_of_outs rfl⟩
+    · exact ⟨by simpa using h, by rw [snOuts_mqttSend]; exact snOuts_of_outs rfl⟩
+
 /-- events that neither wake the client nor belong to its waking up -/
 def quietEvent : Event → Bool
   | .sn bytes => match decode (bytes.take Gen.MaxPacketLen) with
@@ -343,7 +364,9 @@ theorem handleEvent_quiet (g : Gw) (ev : Event) (h : g.st = .asleep) (hq : quiet
       have hp : wakesOrAnswers p = false := by
         simp only [quietEvent, hdec] at hq
         simpa using hq
-      exact ⟨(c11_silent_on_client_packets g p h hp).2, (c11_silent_on_client_packets g p h hp).1⟩
+      have h1 : StaysQuiet g (g.handleSn p) :=
+        ⟨(c11_silent_on_client_packets g p h hp).2, (c11_silent_on_client_packets g p h hp).1⟩
+      exact h1.trans (keepBrokerAlive_quiet _ h1.1)
     · exact ⟨by simpa using h, by simp⟩
   · rename_i p
     have hp : ∀ rc, p ≠ .connack rc := by
